@@ -85,6 +85,52 @@ CLAIMED['C18'] = dict(
         'Source non-mutation is observed by the correspondence, not a theorem (the model is pure). No axioms.',
    technique='Coq proof (filters = List.filter, sublist, min/max) + oracle-instantiated in-Coq correspondence',
    ref='5/C18, 9')
+CLAIMED['C17'] = dict(
+   text='Machine-checked proof, for all item lists, that the Track model (stable insertion sort by start and every operation) keeps tracks chronological after '
+        'construction, +, slicing, time filters, duplicate convolution and the speed filter (any finite chain), rejects shapes without dt, sorts as a stable '
+        'permutation (uniquely determined), that slicing is exactly filter(a <= start /\\ end < b) with an omitted bound unbounded (defaults proved to exclude '
+        'nothing; total, incl. the empty track), that filter_impossible_journeys keeps the first shape and thereafter exactly the shapes reachable from the '
+        'previously KEPT one (inductive greedy characterisation, unique), and that convolution leaves one shape per distinct timestamp with the same timestamp set. '
+        'Tied to the code by an in-Coq correspondence (all permutations of multisets up to 5 items, slice bounds at/1 us before/after every event, speed limits '
+        'at and one ulp either side of every pairwise speed, chains of up to 6 operations), distances and merged positions instantiated from the implementation.',
+   note='Trusted: Coq kernel + vm_compute; CollM mirrors collections.py (correspondence only, no translator); harness. Outside the model: float rounding of dx/dt '
+        '(near-ties excluded and counted), NaN speeds, datetime overflow of max(end)+1s. No axioms.',
+   technique='Coq proof (stable sort, filter spec, inductive greedy characterisation) + in-Coq correspondence on operation histories + Python oracle',
+   ref='5/C17, 9')
+CLAIMED['C10'] = dict(
+   text='Machine-checked proof over all finite lists of integer points (hence rational, by scaling) that the model of Andrew monotone chain (dedup + lexicographic '
+        'sort + <= 0 pops + lower[:-1]+upper) returns a closed ring of input points with no repeated vertex, every consecutive triple a STRICT left turn '
+        '(counter-clockwise, no collinear vertex) when the inputs are not all collinear, that CONTAINS EVERY INPUT (cross a b p >= 0 for every hull edge), that '
+        'depends only on the SET of inputs (permutation and multiplicity invariance), with the one-point / two-point / all-collinear cases characterised exactly; '
+        'entry points = hull of the concatenated member vertices. Tied to the code by an in-Coq correspondence through the public multi-shape / collection entry '
+        'points on integer and dyadic multi-scale frames (2^0 .. 2^-100, several bases; exactness checked per case), all permutations of small sets, plus an '
+        'exact Fraction oracle of every clause on the implementation output.',
+   note='Trusted: Coq kernel + vm_compute; HullM mirrors convex_hull (correspondence only); harness exactness guard. IEEE rounding on non-dyadic inputs outside the model. No axioms.',
+   technique='Coq proof (stack invariant of the pop loop, orientation lemmas by nia, sorted-dedup uniqueness) + in-Coq multi-scale correspondence',
+   ref='5/C10, 9')
+CLAIMED['C15'] = dict(
+   text='Machine-checked proof about an executable model of every __eq__, every __hash__ key, the GeoPolygon constructor, copy() and pickle: equality is reflexive, '
+        'symmetric, transitive on well-formed shapes; equal shapes have equal hash keys (every kind, multi-shapes through member keys, Python set semantics modelled '
+        'with dedup/size test and proved = mutual inclusion); a polygon equals itself rewritten from any start vertex / either winding, outline and hole outlines '
+        '(non-zero ring area), hole order and member order free; equality is sound and complete against a structural specification; differing dt or vertex set => '
+        'unequal; copy and pickle give equal, well-formed values whose object, properties (nested) and dt cells are fresh and isolated under writes (shared hole '
+        'objects of copy() stated explicitly). Tied to the code by an in-Coq correspondence over all 11 kinds (all rotations x windings, all member permutations, '
+        'one-field edits, is-identity and mutation-isolation observations, usability after pickle) plus a Python law oracle.',
+   note='Trusted: Coq kernel + vm_compute; ValueM mirrors the code (correspondence only); harness; Python hash is a function of the modelled key (no collision claim). '
+        'Usable-after-pickle is observed, not proved. Curved bounding coordinates are a Section variable. No axioms.',
+   technique='Coq proof (cyclic-list algebra, Python-set semantics with pigeonhole, abstract-location heap for copy/pickle) + in-Coq correspondence + Python law oracle',
+   ref='5/C15, 9')
+CLAIMED['C16'] = dict(
+   text='Machine-checked proof over ANY finite operation list that, in the state-machine model (geometry, holes, dt, properties, cache cells), reads and to_polygon '
+        'change nothing observable and repeat their answer, raising operations change nothing, every filled cache stays coherent with the current state, EVERY '
+        'observation after any history (volume included) equals that of a freshly constructed shape, inplace=False leaves the receiver untouched and returns the '
+        'in-place result on a copy, and each update does exactly what is documented. Tied to the code by an in-Coq correspondence on operation histories (11 kinds, '
+        '1..8 ops, state compared after every op), bit-identical comparison of 10 observations with freshly constructed implementation objects, mutation of returned '
+        'objects not visible in the receiver; failing histories are shrunk.',
+   note='Trusted: Coq kernel + vm_compute; StateM mirrors _base.py/structures.py (correspondence only); geometry functions are Section variables; member/hole caches not '
+        'modelled; arguments are values in the model (their integrity is observed by the harness). No axioms.',
+   technique='Coq proof (coherence invariant by induction over operation lists) + in-Coq correspondence on histories + fresh-object differential',
+   ref='5/C16, 9')
 NOT_YET = {}
 NA = {
  'C20': 'The observable is the composition of three third-party codecs (pyshp binary I/O, GeoPandas/GEOS, fastkml XML); '
